@@ -73,8 +73,18 @@ func Gen(src string) (goText string, err error) {
 	if ferr != nil {
 		return "", &GenError{StageGofmt, ferr}
 	}
+	if reEmptyExpr.Match(f) {
+		// an empty `{ }` / `{ /* c */ }`: gofmt accepts the generated call without
+		// arguments but it cannot compile; such files are outside the quantifier
+		return "", &GenError{StageGofmt, errEmptyExpr}
+	}
 	return string(f), nil
 }
+
+var (
+	reEmptyExpr  = regexp.MustCompile(`templ\.JoinStringErrs\(\s*(/\*[^*]*\*/\s*|//[^\n]*\n\s*)*\)`)
+	errEmptyExpr = fmt.Errorf("string expression without an expression")
+)
 
 // reErrPos matches the source position inside a templ.Error literal as the
 // generator writes it. Nothing else is masked.
